@@ -210,6 +210,7 @@ static void basis_run (long item)
 					char sig[96]; snprintf (sig, sizeof sig, "warmstart-direct-%s-truth-%s-got-%s", ai ? "primal" : "dual", status_name (want), rv ? "ERR" : status_name (st));
 					char *a = q_str (v);
 					viol ("C04", sig, "%s after mpq_QSload_basis of this basis returns rval=%d status=%s value=%s, the LP is %s: %s", ai ? "mpq_QSopt_primal" : "mpq_QSopt_dual", rv, status_name (st), a, status_name (want), desc);
+					if (!rv && st == QS_LP_OPTIMAL) viol ("C01", "warmstart-direct-optimal-wrong", "%s after mpq_QSload_basis of this basis reports OPTIMAL with value %s, the LP is %s%s: %s", ai ? "mpq_QSopt_primal" : "mpq_QSopt_dual", a, status_name (want), want == QS_LP_OPTIMAL ? " with another value" : "", desc);
 					free (a);
 				}
 				mpq_clear (v);
